@@ -1,11 +1,11 @@
 (* C09 — the same data in different column layouts parses to the same row.
    Only property theorems here, each closed by [exact] and followed by Print Assumptions.
    Relations: Row/Encodes.v (EncNv = one cell, Enc = one slot, Encodes = a sheet row);
-   proofs: Row/ParseFold.v, Row/EncodesFacts.v, Row/FlowHeaderFacts.v, Row/EncodesExamples.v. *)
+   proofs: Row/ParseFold.v, Row/EncodesFacts.v, Row/FlowHeaderFacts.v, Row/EncodesExamples.v, Row/PaddedTypeFacts.v. *)
 From Coq Require Import String List NArith ZArith Bool.
 From RPFT Require Import Base.Sexp Base.PyStr Base.Result Base.ODict Gen.Tables Cell.Cell Row.Ty Row.Layout Row.RowParse
   Row.RowUnparse Row.FlowRow Row.RowFacts Row.ParseFold Row.Encodes Row.EncodesFacts Row.FlowHeaderFacts
-  Row.HeaderFacts Row.StarFacts Row.ReorderFacts Row.EncodesExamples.
+  Row.HeaderFacts Row.StarFacts Row.ReorderFacts Row.EncodesExamples Row.PaddedTypeFacts.
 Import ListNotations.
 
 Theorem C09_tables_ok : row_tables_ok = true.
@@ -207,9 +207,11 @@ Theorem C09_short_long_headers : forall cells short long,
 Proof. exact short_long_headers. Qed.
 Print Assumptions C09_short_long_headers.
 
+(* [sw_key flow_cx rt]: the text the row-type cell rt is looked up under — rt itself on a tree that reads
+   the raw cell, [strip rt] on a tree that reads it as the row parser does (probed: cx_sw_strip) *)
 Theorem C09_message_text_header : forall cells rt f,
   oget str_eqb cells (cx_sw_column flow_cx) = Some rt ->
-  oget str_eqb (cx_sw_table flow_cx) rt = Some f ->
+  oget str_eqb (cx_sw_table flow_cx) (sw_key flow_cx rt) = Some f ->
   ctx_h2f flow_ctx cells (cx_sw_header flow_cx) = Ok f /\ ctx_h2f flow_ctx cells f = Ok f.
 Proof. exact message_text_header. Qed.
 Print Assumptions C09_message_text_header.
@@ -223,7 +225,7 @@ Print Assumptions C09_named_short_headers.
 (* rows that differ only in the short/long spelling of their headers parse identically —
    for every row, well-formed or not *)
 Theorem C09_short_long_layouts : forall cells cells',
-  same_row (oget str_eqb cells (cx_sw_column flow_cx)) cells cells' ->
+  same_row (option_map (sw_key flow_cx) (oget str_eqb cells (cx_sw_column flow_cx))) cells cells' ->
   flow_parse cells = flow_parse cells'.
 Proof. exact short_long_layouts. Qed.
 Print Assumptions C09_short_long_layouts.
@@ -286,15 +288,38 @@ Example C09_positional_mixed_flip_witness :
 Proof. exact positional_mixed_flip_witness. Qed.
 Print Assumptions C09_positional_mixed_flip_witness.
 
-(* (c) the short header `message_text` reads the RAW `type` cell: short = long only up to the
-       exact text of that cell, not up to the stripping the `type` field itself enjoys *)
-Theorem C09_short_header_any_padding_refuted : ~ short_header_any_padding_full.
-Proof. exact short_header_any_padding_refuted. Qed.
-Print Assumptions C09_short_header_any_padding_refuted.
+(* (c) the short header `message_text` and a `type` cell with surrounding whitespace.  The row parser strips
+       the `type` cell; whether the lookup behind `message_text` does too is the PROBED constant cx_sw_strip
+       of the regenerated flow row model.  On a tree that strips (the repaired tree) short = long holds with
+       the row type taken UP TO str.strip(), for every row; on a tree that reads the raw cell the same
+       statement is refuted (finding short-header-with-padded-type-cell). *)
+Theorem C09_short_header_any_padding_decided :
+  if cx_sw_strip flow_cx then short_header_any_padding_full else ~ short_header_any_padding_full.
+Proof. exact short_header_any_padding_decided. Qed.
+Print Assumptions C09_short_header_any_padding_decided.
+
+(* in words: ANY whitespace before and after ANY row type of the table, any other cells *)
+Theorem C09_padded_type_any_whitespace : forall w1 w2 rt f v pre post,
+  cx_sw_strip flow_cx = true ->
+  all_ws w1 = true -> all_ws w2 = true ->
+  oget str_eqb (cx_sw_table flow_cx) rt = Some f ->
+  oget str_eqb pre (cx_sw_column flow_cx) = None ->
+  let ty_cell := (cx_sw_column flow_cx, w1 ++ rt ++ w2) in
+  flow_parse (pre ++ ty_cell :: (cx_sw_header flow_cx, v) :: post) = flow_parse (pre ++ ty_cell :: (f, v) :: post).
+Proof. exact padded_type_any_whitespace. Qed.
+Print Assumptions C09_padded_type_any_whitespace.
+
+Example C09_padded_type_any_whitespace_nonvacuous :
+  all_ws (S_ "  ") = true /\ all_ws [9; 160; 12288]%N = true
+  /\ oget str_eqb (cx_sw_table flow_cx) (S_ "go_to") = Some (S_ "mainarg_destination_row_ids")
+  /\ is_ok (flow_parse ([(S_ "row_id", S_ "7")] ++ (S_ "type", S_ "  " ++ S_ "go_to" ++ [9; 160; 12288]%N)
+                         :: (S_ "mainarg_destination_row_ids", S_ "3") :: [(S_ "from", S_ "start")])) = true.
+Proof. exact padded_type_any_whitespace_nonvacuous. Qed.
+Print Assumptions C09_padded_type_any_whitespace_nonvacuous.
 
 Example C09_padded_type_witness :
-  flow_parse flow_padded_short = Err EKey
-  /\ is_ok (flow_parse flow_padded_long) = true
-  /\ flow_parse flow_padded_long = flow_parse flow_unpadded_short.
+  is_ok (flow_parse flow_padded_long) = true
+  /\ flow_parse flow_padded_long = flow_parse flow_unpadded_short
+  /\ flow_parse flow_padded_short = if cx_sw_strip flow_cx then flow_parse flow_padded_long else Err EKey.
 Proof. exact padded_type_witness. Qed.
 Print Assumptions C09_padded_type_witness.
